@@ -34,6 +34,15 @@ those the load cached on the way included — is settled, under the named hypoth
 absorbed failure of a nested load, no `get_cached` probe of a key that is cached before the load
 returns) and `NoProbedKeyFilled`; each is necessary (`C05_load_settles_false_absorbed`,
 `C05_load_settles_false_probe`, `C05_load_preserves_false_fill`). No hypothesis on fuel or result.
+**Static mode** (`enhance_hot_reloading`; `Lemmas/StaticMode.lean`): the cache follows the source by itself —
+one batch of events is applied when `handle_events` returns (`C05_static_events_converge_partial`, with
+registrations still in the channel `C05_static_events_converge_pending_partial`), the switch applies what was
+notified and not applied yet (`C05_enhance_converges_partial`), `hot_reload()` is a no-op
+(`C05_hot_reload_static_idle`), and over histories of loads, `hot_reload()`s, notifications and switches under
+one environment everything is settled after every reloader step (`C05_static_history_partial`, which contains
+`C05_history_settled_partial`: `C05_static_history_extends`). The pass is the same `run_update`: same named
+hypotheses, on the steps of the pass the entry point runs; both stay necessary in static mode
+(`C05_static_statement_false_rewire`, `C05_static_statement_false_miss`).
 -/
 namespace AmVerif.Props.C05
 open AmVerif.Gen AmVerif.Model AmVerif.Lemmas.TopoGraph AmVerif.Lemmas.Topo
@@ -1120,6 +1129,41 @@ theorem C05_static_events_converge_partial (env env' : Env) (fuel : Nat) (s : St
     hmiss hret hrewire
   exact ⟨c1, c2, c3, c4, c5, C05_handleEvents_keeps_graphOK env' fuel s r evs hG⟩
 
+/-- The same with registrations of earlier loads still in the channel (the usual situation in static
+mode, where nobody has to call `hot_reload()`): `Pending` instead of "drained and settled" — every
+registration in the channel is good and everything registered and cached is settled unless a
+registration for it is in the channel. `handle_events` takes them first; the graph the sort walks is the
+one after that drain (`(takeEvents s r evs).2.graph`). -/
+theorem C05_static_events_converge_pending_partial (env env' : Env) (fuel : Nat) (s : St) (r : RSt)
+    (evs changed : List Dep) {rank : Dep → Nat}
+    (hS : env.Steady) (hS' : env'.Steady) (hL : SameLoaders env env')
+    (hp : Pending env fuel s r.graph) (hG : GraphOK r.graph)
+    (hrank : ∀ a rs b, (takeEvents s r evs).2.graph.rdepsOf a = some rs → b ∈ rs → rank b < rank a)
+    (hlive : r.dead = false) (hfuel : (takeEvents s r evs).2.graph.length + 1 ≤ fuel)
+    (hstatic : r.static_ = true)
+    (hfile : ∀ id ext, Dep.file id ext ∉ changed → env'.read 0 id ext = env.read 0 id ext)
+    (hdir : ∀ id, Dep.dir id ∉ changed → env'.readDir 0 id = env.readDir 0 id)
+    (hnotified : ∀ d, d ∈ changed → (takeEvents s r evs).2.graph.get d ≠ none → d ∈ evs ∨ d ∈ r.toReload)
+    (hmiss : NoMissInPass env' fuel (updateSteps env' fuel (takeEvents s r evs).1 (takeEvents s r evs).2))
+    (hret : ReloadsReturn env' fuel (updateSteps env' fuel (takeEvents s r evs).1 (takeEvents s r evs).2))
+    (hrewire : NoRewireOntoPending env' fuel (updateSteps env' fuel (takeEvents s r evs).1 (takeEvents s r evs).2)) :
+    Settled env' fuel (handleEvents env' fuel s r evs).1 (handleEvents env' fuel s r evs).2.graph ∧
+    (handleEvents env' fuel s r evs).2.dead = false ∧ (handleEvents env' fuel s r evs).1.out = [] ∧
+    (handleEvents env' fuel s r evs).2.toReload = [] ∧ (handleEvents env' fuel s r evs).2.static_ = true ∧
+    GraphOK (handleEvents env' fuel s r evs).2.graph := by
+  have ht : (processMsgs s r).2.toReload = r.toReload :=
+    drain_toReload s.out r (fun m hm => by obtain ⟨k, D, e, _⟩ := hp.good m hm; exact ⟨k, D, e⟩)
+  obtain ⟨c1, c2, c3, c4, c5, _⟩ := handleEvents_static_converges hS hS' hL hp hG.1
+    (rank := rank) (changed := changed) (evs := evs) hrank hlive hstatic hfuel hfile hdir
+    (by
+      intro d hd hk
+      show d ∈ keepEvents (processMsgs s r).2.graph evs (processMsgs s r).2.toReload
+      rcases hnotified d hd hk with h | h
+      · exact mem_keepEvents _ evs _ d h hk
+      · exact mem_keepEvents_of_mem _ evs _ d (by rw [ht]; exact h))
+    hmiss hret hrewire
+  exact ⟨c1, c2, c3, c4, c5, C05_handleEvents_keeps_graphOK env' fuel s r evs hG⟩
+
 /-- The pass `enhance_hot_reloading` runs from the local mode is `run_update` from `enhanceState s r`
 (messages drained, mode switched); with a drained channel that state is `s` and `r` in static mode. -/
 theorem C05_enhance_pass_state (env : Env) (fuel : Nat) (s : St) (r : RSt)
@@ -1161,6 +1205,37 @@ theorem C05_enhance_converges_partial (env env' : Env) (fuel : Nat) (s : St) (r 
   obtain ⟨c1, c2, c3, c4, c5, _⟩ := enhance_converges hS hS' hL (Pending.of_settled hdrained hset) hG.1
     (rank := rank) (changed := changed) (by rw [hg]; exact hrank) hlive hlocal (by rw [hg]; exact hfuel)
     hfile hdir (by intro d hd hk; rw [hg] at hk; rw [ht]; exact hnotified d hd hk)
+    hmiss hret hrewire
+  exact ⟨c1, c2, c3, c4, c5, C05_enhance_keeps_graphOK env' fuel s r hG⟩
+
+/-- The same with registrations of earlier loads still in the channel (`Pending`): the switch takes
+them first. -/
+theorem C05_enhance_converges_pending_partial (env env' : Env) (fuel : Nat) (s : St) (r : RSt) (changed : List Dep)
+    {rank : Dep → Nat}
+    (hS : env.Steady) (hS' : env'.Steady) (hL : SameLoaders env env')
+    (hp : Pending env fuel s r.graph) (hG : GraphOK r.graph)
+    (hrank : ∀ a rs b, (enhanceState s r).2.graph.rdepsOf a = some rs → b ∈ rs → rank b < rank a)
+    (hlive : r.dead = false) (hfuel : (enhanceState s r).2.graph.length + 1 ≤ fuel)
+    (hlocal : r.static_ = false)
+    (hfile : ∀ id ext, Dep.file id ext ∉ changed → env'.read 0 id ext = env.read 0 id ext)
+    (hdir : ∀ id, Dep.dir id ∉ changed → env'.readDir 0 id = env.readDir 0 id)
+    (hnotified : ∀ d, d ∈ changed → (enhanceState s r).2.graph.get d ≠ none → d ∈ r.toReload)
+    (hmiss : NoMissInPass env' fuel (updateSteps env' fuel (enhanceState s r).1 (enhanceState s r).2))
+    (hret : ReloadsReturn env' fuel (updateSteps env' fuel (enhanceState s r).1 (enhanceState s r).2))
+    (hrewire : NoRewireOntoPending env' fuel (updateSteps env' fuel (enhanceState s r).1 (enhanceState s r).2)) :
+    Settled env' fuel (enhance env' fuel s r).1 (enhance env' fuel s r).2.graph ∧
+    (enhance env' fuel s r).2.dead = false ∧ (enhance env' fuel s r).1.out = [] ∧
+    (enhance env' fuel s r).2.toReload = [] ∧ (enhance env' fuel s r).2.static_ = true ∧
+    GraphOK (enhance env' fuel s r).2.graph := by
+  have ht : (processMsgs s r).2.toReload = r.toReload :=
+    drain_toReload s.out r (fun m hm => by obtain ⟨k, D, e, _⟩ := hp.good m hm; exact ⟨k, D, e⟩)
+  obtain ⟨c1, c2, c3, c4, c5, _⟩ := enhance_converges hS hS' hL hp hG.1
+    (rank := rank) (changed := changed) hrank hlive hlocal hfuel hfile hdir
+    (by
+      intro d hd hk
+      show d ∈ (processMsgs s r).2.toReload
+      rw [ht]
+      exact hnotified d hd hk)
     hmiss hret hrewire
   exact ⟨c1, c2, c3, c4, c5, C05_enhance_keeps_graphOK env' fuel s r hG⟩
 
@@ -1340,5 +1415,77 @@ example :
       (prePass (.notify [.file "e" "s"]) (runH 10 (exStaticHistory.take 5) ({}, {}))).1
       (prePass (.notify [.file "e" "s"]) (runH 10 (exStaticHistory.take 5) ({}, {}))).2).map (·.key)).length = 3 ∧
     (runH 10 exStaticHistory ({}, {})).1.lookup kn = some ⟨.int 10, true, 1, true, 2⟩ := by decide
+
+/-! ### The two order-dependent situations exist in static mode too
+
+The pass is the same `run_update`, sorted once from the graph as it is when the batch arrives: the
+named hypotheses `hrewire` (F-C05e) and `hmiss` (F-C05d) of `C05_static_events_converge_partial` cannot
+be dropped. Same scripts as `C05_full_statement_false_rewire` / `C05_full_statement_false_miss`; the
+events of ONE batch arrive as `e.s`, `b.s`. -/
+
+/-- `b = 1`, `e = 10`, both loaded and registered; static mode, nothing pending -/
+def exFlatStatic : RSt := { graph := exFlat.graph, static_ := true }
+
+/-- **F-C05e in static mode**: every hypothesis of `C05_static_events_converge_partial` except `hrewire`
+holds, and when `handle_events` returns `b` holds `12` although re-evaluating its loader gives `22`. -/
+theorem C05_static_statement_false_rewire :
+    ∃ (env env' : Env) (fuel : Nat) (s : St) (r : RSt) (evs changed : List Dep) (rank : Dep → Nat),
+      env.Steady ∧ env'.Steady ∧ SameLoaders env env' ∧ Settled env fuel s r.graph ∧ GraphOK r.graph ∧
+      (∀ a rs b, r.graph.rdepsOf a = some rs → b ∈ rs → rank b < rank a) ∧
+      r.dead = false ∧ r.graph.length + 1 ≤ fuel ∧ s.out = [] ∧ r.static_ = true ∧
+      (∀ id ext, Dep.file id ext ∉ changed → env'.read 0 id ext = env.read 0 id ext) ∧
+      (∀ id, Dep.dir id ∉ changed → env'.readDir 0 id = env.readDir 0 id) ∧
+      (∀ d, d ∈ changed → d ∈ evs) ∧
+      NoMissInPass env' fuel (updateSteps env' fuel (takeEvents s r evs).1 (takeEvents s r evs).2) ∧
+      ReloadsReturn env' fuel (updateSteps env' fuel (takeEvents s r evs).1 (takeEvents s r evs).2) ∧
+      ¬ NoRewireOntoPending env' fuel (updateSteps env' fuel (takeEvents s r evs).1 (takeEvents s r evs).2) ∧
+      StaleAt env' fuel (handleEvents env' fuel s r evs) kb ∧
+      (handleEvents env' fuel s r evs).1.lookup kb = some ⟨.int 12, true, 1, true, 1⟩ ∧
+      reloadOut env' fuel (handleEvents env' fuel s r evs).1 kb = .ok (.int 22) := by
+  have hstale : StaleAt (exEnv [2, 0] [20]) 10
+      (handleEvents (exEnv [2, 0] [20]) 10 (exSt 1 10) exFlatStatic [.file "e" "s", .file "b" "s"]) kb :=
+    staleAt_of_check (by decide)
+  have hS := exEnv_steady [1] [10]
+  have hS' := exEnv_steady [2, 0] [20]
+  have hL := exEnv_same [1] [10] [2, 0] [20]
+  have hset : Settled (exEnv [1] [10]) 10 (exSt 1 10) exFlatStatic.graph := settled_of_check (by decide)
+  have hrank : ∀ a rs b, exFlatStatic.graph.rdepsOf a = some rs → b ∈ rs → exRank b < exRank a :=
+    rank_of_entries (by decide)
+  have hfile := exEnv_unchanged [1] [10] [2, 0] [20]
+  have hnot : ∀ d, d ∈ [Dep.file "b" "s", Dep.file "e" "s"] → d ∈ [Dep.file "e" "s", Dep.file "b" "s"] := by decide
+  refine ⟨exEnv [1] [10], exEnv [2, 0] [20], 10, exSt 1 10, exFlatStatic, [.file "e" "s", .file "b" "s"],
+    [.file "b" "s", .file "e" "s"], exRank,
+    hS, hS', hL, hset, exFlat_graphOK, hrank, rfl, by decide, rfl, rfl, hfile, fun _ _ => rfl, hnot,
+    noMiss_of_check (by decide), reloadsReturn_of_check (by decide), ?_, hstale, by decide, by decide⟩
+  intro hrew
+  exact hstale.not_settled
+    (C05_static_events_converge_partial _ _ 10 _ _ _ _ hS hS' hL hset exFlat_graphOK hrank rfl (by decide) rfl rfl
+      hfile (fun _ _ => rfl) (fun d hd _ => Or.inl (hnot d hd)) (noMiss_of_check (by decide))
+      (reloadsReturn_of_check (by decide)) hrew).1
+
+/-- **F-C05d in static mode**: every hypothesis of `C05_static_events_converge_partial` except `hmiss`
+holds; the reload of `b` loads `n` for the first time, from the stale `e`; when `handle_events` returns
+`n` is registered (its registration was drained by `handle_events` itself) and holds `10` although
+re-evaluating its loader gives `20`. -/
+theorem C05_static_statement_false_miss :
+    ∃ (env env' : Env) (fuel : Nat) (s : St) (r : RSt) (evs changed : List Dep) (rank : Dep → Nat),
+      env.Steady ∧ env'.Steady ∧ SameLoaders env env' ∧ Settled env fuel s r.graph ∧ GraphOK r.graph ∧
+      (∀ a rs b, r.graph.rdepsOf a = some rs → b ∈ rs → rank b < rank a) ∧
+      r.dead = false ∧ r.graph.length + 1 ≤ fuel ∧ s.out = [] ∧ r.static_ = true ∧
+      (∀ id ext, Dep.file id ext ∉ changed → env'.read 0 id ext = env.read 0 id ext) ∧
+      (∀ id, Dep.dir id ∉ changed → env'.readDir 0 id = env.readDir 0 id) ∧
+      (∀ d, d ∈ changed → d ∈ evs) ∧
+      ¬ NoMissInPass env' fuel (updateSteps env' fuel (takeEvents s r evs).1 (takeEvents s r evs).2) ∧
+      ReloadsReturn env' fuel (updateSteps env' fuel (takeEvents s r evs).1 (takeEvents s r evs).2) ∧
+      NoRewireOntoPending env' fuel (updateSteps env' fuel (takeEvents s r evs).1 (takeEvents s r evs).2) ∧
+      StaleAt env' fuel (handleEvents env' fuel s r evs) kn ∧
+      (handleEvents env' fuel s r evs).1.lookup kn = some ⟨.int 10, true, 0, false, 2⟩ ∧
+      reloadOut env' fuel (handleEvents env' fuel s r evs).1 kn = .ok (.int 20) := by
+  refine ⟨exEnv [1] [10], exEnv [2, 1] [20], 10, exSt 1 10, exFlatStatic, [.file "e" "s", .file "b" "s"],
+    [.file "b" "s", .file "e" "s"], exRank,
+    exEnv_steady _ _, exEnv_steady _ _, exEnv_same _ _ _ _, settled_of_check (by decide), exFlat_graphOK,
+    rank_of_entries (by decide), rfl, by decide, rfl, rfl, exEnv_unchanged _ _ _ _, fun _ _ => rfl, by decide,
+    fun h => absurd (noMiss_check_of h) (by decide), reloadsReturn_of_check (by decide),
+    noRewire_of_check (by decide), staleAt_of_check (by decide), by decide, by decide⟩
 
 end AmVerif.Props.C05
